@@ -31,12 +31,13 @@ def run(tier, seed, ev):
         "thread at every lock acquisition and blob-directory call; at every scheduling point with the state write lock free, every "
         "key in the index must map to an existing blob"])
     with mirrun.mir_executor(PROP + "s") as (ex, scr, mir_s):
-        # put||put also with ONE failed rename into cas/ anywhere (a commit that aborts after registering its intent)
-        plans = [(("put", "put"), 1, 2, dict(faults=1)), (("put", "remove"), 1, 2)]
+        plans = [(("put", "put"), 1, 2), (("put", "remove"), 1, 2)]
         if tier == "thorough":
-            plans += [(("put", "remove"), 2, 2), (("put", "put"), 2, 2), (("remove", "remove"), 2, 2), (("put", "delete_orphan"), 2, 2)]
+            # put||put also with ONE failed rename into cas/ anywhere (a commit that aborts after registering its intent;
+            # the quick tier of C13 runs the same exploration)
+            plans += [(("put", "put"), 1, 2, dict(faults=1)), (("put", "remove"), 2, 2), (("put", "put"), 2, 2), (("remove", "remove"), 2, 2), (("put", "delete_orphan"), 2, 2)]
         rc2 = sprop.run_s(PROP, tier, seed, ev, ex, plans)
-        ev.bounds["faults in interleavings"] = "put||put: at most one injected failure, at the rename of a staged blob into cas/ (the call between register_intent and the index apply)"
+        ev.bounds["faults in interleavings"] = "thorough: put||put with at most one injected failure, at the rename of a staged blob into cas/ (the call between register_intent and the index apply)"
         ev.bounds["interleavings"] = "2 threads; key universe 1 (quick) / 2 (thorough), hash universe 2; arbitrary initial index and blob set (referenced + orphans); quiet log stretch (no rollover), N=8"
         ev.functions.append("threads: Transaction::commit, CasInner::remove, OrphanStats::delete_orphan — full MIR, interleaved")
     return tcommon.best(rc1, rc2)
